@@ -366,7 +366,7 @@ func (r *c25Run) Main(s *sim.Sim) {
 		if connected && r.AutoReconnect {
 			r.cl = cl
 			if st := cl.State(); st != opcua.Connected {
-				s.Fail("C25", "liveness", "not-connected-after-faults:"+r.hint(), "state is %v, %v after the last fault ended (bound %v); states=%v", st, s.Now()-r.last(), bound, r.stateLog())
+				s.Fail("C25", "liveness", "not-connected-after-faults:"+r.hint(), "state is %v, %v after the last fault ended (bound %v); states=%v\nfaults %+v\n%s", st, s.Now()-r.last(), bound, r.stateLog(), r.Faults, clientStacks())
 				return
 			}
 			rctx, cancel := context.WithTimeout(ctx, 2*reqTO)
@@ -440,6 +440,11 @@ func (r *c25Run) hint() string {
 	for _, g := range strings.Split(sim.GoroutineDump(), "\n\n") {
 		if strings.Contains(g, "opcua.(*Client).monitor(") {
 			monitorRunning = true
+			if strings.Contains(g, "opcua.(*Client).pauseSubscriptions(") {
+				// the pause/resume token protocol of the publish loop (catalogued under C27): the
+				// reconnect monitor sits in its send on the full two-slot pausech and never dials
+				return "reconnect-monitor-blocked-sending-pause"
+			}
 		}
 	}
 	stuckOnDeadConn := dead && r.cl != nil && r.cl.State() == opcua.Connected
